@@ -7,6 +7,7 @@ import (
 	"io"
 	"sort"
 	"strings"
+	"sync/atomic"
 	"testing"
 	"time"
 
@@ -56,10 +57,13 @@ type ocCase struct {
 	// old session, i.e. while the shutdown is still going through the table. Whether the shutdown catches the new
 	// session as well is not fixed; the table, the count and the set of live sessions must agree afterwards
 	Reconnect bool
+	// CloseDuringFlush: graceful close from another goroutine while the last batch is inside the application's
+	// flush listener: taken from the write buffer (which is empty now) and not yet handed to the transport
+	CloseDuringFlush bool
 }
 
 func (c ocCase) String() string {
-	return fmt.Sprintf("{%+v close=%s target=%d midUpgrade=%v finishUpgrade=%v closeIn=%q closeHeld=%v perMessageDeflate=%d reconnect=%v}", c.Sess, c.Close, c.Target, c.MidUpgrade, c.FinishUpgrade, c.CloseIn, c.CloseHeld, c.PMD, c.Reconnect)
+	return fmt.Sprintf("{%+v close=%s target=%d midUpgrade=%v finishUpgrade=%v closeIn=%q closeHeld=%v perMessageDeflate=%d reconnect=%v closeDuringFlush=%v}", c.Sess, c.Close, c.Target, c.MidUpgrade, c.FinishUpgrade, c.CloseIn, c.CloseHeld, c.PMD, c.Reconnect, c.CloseDuringFlush)
 }
 
 func genC12(rt *rapid.T, gates bool, known bool, col *Collector) ocCase {
@@ -104,6 +108,7 @@ func genC12(rt *rapid.T, gates bool, known bool, col *Collector) ocCase {
 	if c.Close == "close" {
 		c.CloseIn = rapid.SampledFrom([]string{"", "", "", "flush", "drain", "srv.flush", "srv.drain"}).Draw(rt, "closeIn")
 		c.CloseHeld = gates && c.CloseIn == "" && rapid.IntRange(0, 2).Draw(rt, "closeHeld") == 0
+		c.CloseDuringFlush = c.CloseIn == "" && !c.CloseHeld && rapid.IntRange(0, 2).Draw(rt, "closeDuringFlush") == 0
 	}
 	return c
 }
@@ -404,6 +409,24 @@ func runC12(c ocCase) (fail string, stats map[string]bool) {
 			g.mu.Unlock()
 			g.Release(gpc)
 			Settle()
+		} else if c.CloseDuringFlush {
+			park := make(chan struct{})
+			var parked atomic.Bool
+			tgt.sr.Sock.Once("flush", func(...any) {
+				parked.Store(true)
+				<-park
+			})
+			p := msgT("sent right before the close")
+			tgt.sent = append(tgt.sent, p)
+			go w.AppSend(tgt.sr, p, nil, false, 0)
+			Settle()
+			tgt.sr.Sock.Close(false)
+			Settle()
+			close(park)
+			Settle()
+			if parked.Load() {
+				stats["close-while-a-batch-is-inside-its-flush-listener"] = true
+			}
 		} else {
 			tgt.sr.Sock.Close(false)
 		}
@@ -737,7 +760,7 @@ func TestC12OrderlyClose(t *testing.T) {
 		})
 	}
 	req := []string{"upgrade-completed-while-closing", "session-still-closing-at-shutdown", "graceful-close", "discarding-close", "server-close", "http-server-close", "shutdown>=2-sessions", "client-never-polls-again", "close-during-upgrade", "upgraded-session", "carrier.polling", "carrier.websocket", "carrier.webtransport", "close-while-writer-parked", "last-word-and-close-from-a-flush-listener", "last-word-and-close-from-a-drain-listener", "last-word-and-close-from-a-srv.flush-listener"}
-	req = append(req, "buffer-handed-over-while-the-closer-is-inside-Close", "perMessageDeflate-configured", "reconnect-during-the-shutdown")
+	req = append(req, "buffer-handed-over-while-the-closer-is-inside-Close", "perMessageDeflate-configured", "reconnect-during-the-shutdown", "close-while-a-batch-is-inside-its-flush-listener")
 	col.RequireClasses(t, req...)
 }
 
@@ -801,5 +824,27 @@ func TestC12CloseRacingFlushFinding(t *testing.T) {
 		res.rethrow()
 		col.Case(c.String(), true, map[string]any{"case": c.String(), "result": clipStr(fail, 300)}, "buffer-handed-over-while-the-closer-is-inside-Close")
 		demoFinding(t, col, "C12", sigCloseRacingFlush, fail != "", fmt.Sprintf("%v: %s", c, clipStr(fail, 300)))
+	}
+}
+
+const sigCloseOvertakesFlush = "graceful-close-overtakes-a-batch-inside-its-flush-listener"
+
+// TestC12CloseOvertakesFlushFinding: a batch has been taken from the buffer by a flush on another goroutine
+// and is still inside the application's 'flush' listener when Close(false) is called: the buffer looks empty.
+func TestC12CloseOvertakesFlushFinding(t *testing.T) {
+	col := NewCollector("TestC12CloseOvertakesFlushFinding", "deterministic: one session per carrier, one Send whose hand-over is held inside an application 'flush' listener on another goroutine, Close(false) from the root, the listener is released; oracle of TestC12OrderlyClose: the message arrives, then the session closes with 'forced close'. every case is non-trivial").Use(t)
+	cases := []ocCase{
+		{Sess: []ocSessSpec{{Car: "polling", Rev: 4, K: 0, Poll: "pending"}}, Close: "close", CloseDuringFlush: true},
+		{Sess: []ocSessSpec{{Car: "polling", Rev: 3, K: 0, Poll: "pending"}}, Close: "close", CloseDuringFlush: true},
+		{Sess: []ocSessSpec{{Car: "websocket", Rev: 4, K: 0, Poll: "pending"}}, Close: "close", CloseDuringFlush: true},
+		{Sess: []ocSessSpec{{Car: "webtransport", Rev: 4, K: 0, Poll: "pending"}}, Close: "close", CloseDuringFlush: true},
+		{Sess: []ocSessSpec{{Car: "up-webtransport", Rev: 4, K: 0, Poll: "pending"}}, Close: "close", CloseDuringFlush: true},
+	}
+	for _, c := range cases {
+		var fail string
+		res := bubble(t, func() { fail, _ = runC12(c) })
+		res.rethrow()
+		col.Case(c.String(), true, map[string]any{"case": c.String(), "result": clipStr(fail, 300)}, "close-while-a-batch-is-inside-its-flush-listener")
+		demoFinding(t, col, "C12", sigCloseOvertakesFlush, fail != "", fmt.Sprintf("%v: %s", c, clipStr(fail, 300)))
 	}
 }
